@@ -115,6 +115,37 @@ func diffGlue() *Result {
 		}
 	}
 	rec2(nil)
+	// long histories: the stack is grown on demand, so depths well past any initial capacity
+	nlong := 300
+	if opts.Tier == "thorough" {
+		nlong = 3000
+	}
+	for k := 0; k < nlong; k++ {
+		n := 6 + rng.Intn(150)
+		pcall := 50 + rng.Intn(50)
+		var sq []string
+		for i := 0; i < n; i++ {
+			switch x := rng.Intn(100); {
+			case x < pcall:
+				sq = append(sq, "c")
+			case x < pcall+(100-pcall)*2/3:
+				sq = append(sq, "r1")
+			default:
+				sq = append(sq, "r2")
+			}
+		}
+		seqs = append(seqs, sq)
+	}
+	for d := 1; d <= 140; d++ { // d calls, then d returns
+		var sq []string
+		for i := 0; i < d; i++ {
+			sq = append(sq, "c")
+		}
+		for i := 0; i < d; i++ {
+			sq = append(sq, "r1")
+		}
+		seqs = append(seqs, sq)
+	}
 	for _, sq := range seqs {
 		var enc []string
 		res := guard(func() string {
